@@ -2242,7 +2242,7 @@ func AtomCodes(vm *VM, atom, codes Term, k Cont, env *Env) *Promise {
 			case Variable:
 				return Error(InstantiationError(env))
 			case Integer:
-				if e < 0 || e > unicode.MaxRune {
+				if e < 0 || e > unicode.MaxRune || !utf8.ValidRune(rune(e)) {
 					return Error(representationError(flagCharacterCode, env))
 				}
 				_, _ = sb.WriteRune(rune(e))
@@ -2261,7 +2261,7 @@ func AtomCodes(vm *VM, atom, codes Term, k Cont, env *Env) *Promise {
 			case Variable:
 				break
 			case Integer:
-				if e < 0 || e > unicode.MaxRune {
+				if e < 0 || e > unicode.MaxRune || !utf8.ValidRune(rune(e)) {
 					return Error(representationError(flagCharacterCode, env))
 				}
 			default:
